@@ -48,6 +48,19 @@ pub fn gen_string(c: &mut Choices) -> String {
     for _ in 0..n {
         s.push_str(P[c.below(P.len())]);
     }
+    // one string in eight is long: its byte length sits at or next to a power of two (small-string
+    // thresholds, chunk sizes, inline buffers), made of a repeated piece after the random head
+    if c.below(8) == 0 {
+        const L: [usize; 17] = [15, 16, 17, 23, 24, 31, 32, 33, 63, 64, 65, 127, 128, 129, 255, 256, 1000];
+        let target = L[c.below(L.len())];
+        let piece = ["x", "ab", "é", "日", "q\n"][c.below(5)];
+        while s.len() + piece.len() <= target {
+            s.push_str(piece);
+        }
+        while s.len() < target {
+            s.push('z');
+        }
+    }
     s
 }
 
